@@ -14,6 +14,14 @@ import (
 // argument order, aliasing rule … changed, or something the evaluator must not accept) and must be refused or
 // regenerate a different module.  B7 (a table another function writes), B9 (input-dependent shift), B11 (closure
 // created in a loop) and B13 must be REFUSED.
+//
+// The boolean part of ff/gg/hh (md4_bitfn.go, N9–N11): seeded_C01-h6 and Hj…Hm spell F, G, H in other equivalent ways
+// (textbook forms, `&^`, XOR of products, De Morgan duals, one-line helpers calling helpers, named typed and untyped
+// constants) and must regenerate the same truth-table names; B17…B25 are near misses (one `&` turned into `|`, the
+// arguments of the helper in another order, a complement dropped, a named constant one off, `&` for `^`, a multiplexer
+// the wrong way round) that must name another table, and B21 (a shift inside the boolean part), B22 (a table over five
+// words), B24 (complement by XOR with 0xFFFFFFFE) must be REFUSED.  B26 is harmless (`|` of disjoint words written `+`)
+// and not recognised: it regenerates another module.
 func runMd4Fact(t *testing.T, src string) (string, error) {
 	t.Helper()
 	dir := t.TempDir()
@@ -42,7 +50,7 @@ func TestMd4KernelNormalisations(t *testing.T) {
 	}
 	hs, _ := filepath.Glob("testdata/md4/harmless/*.go.txt")
 	bs, _ := filepath.Glob("testdata/md4/breaking/*.go.txt")
-	if len(hs) < 10 || len(bs) < 15 {
+	if len(hs) < 16 || len(bs) < 27 {
 		t.Fatalf("test data missing: %d harmless, %d breaking", len(hs), len(bs))
 	}
 	for _, f := range hs {
@@ -53,7 +61,8 @@ func TestMd4KernelNormalisations(t *testing.T) {
 			t.Errorf("%s: regenerates a different module", f)
 		}
 	}
-	mustRefuse := map[string]bool{"B7_table_mutated_elsewhere": true, "B9_data_dependent": true, "B11_closure_in_loop": true, "B13_constexpr_wordsize": true}
+	mustRefuse := map[string]bool{"B7_table_mutated_elsewhere": true, "B9_data_dependent": true, "B11_closure_in_loop": true, "B13_constexpr_wordsize": true,
+		"B21_shift_in_boolean_part": true, "B22_five_words": true, "B24_almost_all_ones": true}
 	for _, f := range bs {
 		name := strings.TrimSuffix(filepath.Base(f), ".go.txt")
 		got, err := runMd4Fact(t, f)
@@ -62,6 +71,37 @@ func TestMd4KernelNormalisations(t *testing.T) {
 		}
 		if mustRefuse[name] && err == nil {
 			t.Errorf("%s: must be refused", f)
+		}
+	}
+}
+
+// The algebraic normal form written for a truth table has that truth table (all 2+4+16+256 tables over 0..3 words), and
+// different tables get different forms.
+func TestBitfnANF(t *testing.T) {
+	for k := 0; k <= 3; k++ {
+		n := uint(1) << uint(k)
+		seen := map[string]uint{}
+		for tt := uint(0); tt < 1<<n; tt++ {
+			masks := anfMasks(k, tt)
+			for row := uint(0); row < n; row++ {
+				var v uint
+				for _, mk := range masks {
+					if mk&row == mk {
+						v ^= 1
+					}
+				}
+				if v != (tt>>row)&1 {
+					t.Fatalf("k=%d table %#x row %d: normal form gives %d", k, tt, row, v)
+				}
+			}
+			if k > 0 {
+				def := bitfnDef("f", k, tt)
+				body := def[strings.LastIndex(def, ":= "):]
+				if o, dup := seen[body]; dup {
+					t.Fatalf("k=%d: tables %#x and %#x have the same text %s", k, o, tt, body)
+				}
+				seen[body] = tt
+			}
 		}
 	}
 }
